@@ -106,8 +106,7 @@ class CtorUnit(Unit):
         return kw
 
     def caller_data(self, case):
-        if not hasattr(self, "_data"):
-            self._data = bytearray(b"\xa5" * 8)
+        self._data = bytearray(b"\xa5" * 8)  # (a fresh one per run: what one run does to it must not reach the next)
         return self._data
 
     def opcode_obj(self, case):
@@ -217,15 +216,26 @@ class CtorUnit(Unit):
         elif rule[0] == "out_caller":
             yield "C03", "dataout-is-callers-object", dout is self._kw["data"]
             yield "C03", "datain-empty", nin == 0
+            yield from self.callers_data_untouched()
         elif rule[0] == "out_caller_ndob":
             yield "C03", "dataout-is-callers-object-unless-ndob", V.bor(a.ndob != 0, dout is self._kw["data"])
             yield "C03", "dataout-empty-with-ndob", V.bor(a.ndob == 0, nout == 0)
             yield "C03", "datain-empty", nin == 0
+            yield from self.callers_data_untouched()
         elif rule[0] == "out_list":
             f = lay.derived[rule[1]]
             yield "C03", "parameter-list-length==len(dataout)", f.decode(cdb) == nout
             yield "C05", "parameter-list-length==len(dataout)", f.decode(cdb) == nout
             yield "C03", "datain-empty", nin == 0
+
+    def callers_data_untouched(self):
+        """the data the caller hands over for the data-out phase is the caller's: building a command neither grows nor
+        changes it (another command built from the same buffer sees the same bytes)"""
+        d = self._kw.get("data")
+        if isinstance(d, (bytearray, V.SBytes)):
+            same = len(d) == 8 and all((not V.is_sym(c)) and c == 0xA5 for c in list(d))
+            yield "C03", "callers-data-buffer-is-not-modified (%d bytes afterwards)" % len(d) if not same else "callers-data-buffer-is-not-modified", same
+            yield "C09", "callers-data-buffer-is-not-modified", same
 
     def canaries(self, case, a, out, X):
         if out.kind == "return" and isinstance(out.value.cdb, (bytearray, V.SBytes)) and self.layout.fields:
